@@ -196,7 +196,11 @@ fn build_doc(ch: &mut Choices) -> Doc {
             let bound = ch.next(i);
             if doc.types[bound].generic.is_none() {
                 ty.generic = Some(("X".to_string(), bound));
-                ty.subs.push((format!("x{i}"), Card::Atom, TyRef::Binding));
+                // the placeholder may be used by several fields, atoms and clusters
+                for k in 0..1 + ch.next(3) {
+                    let card = if ch.chance(3, 4) { Card::Atom } else { Card::Cluster(1 + ch.next(2)) };
+                    ty.subs.push((format!("x{i}_{k}"), card, TyRef::Binding));
+                }
             }
         }
         if i > 0 {
